@@ -30,7 +30,7 @@ NCMP = 16      # shards of the seed-comparison pass
 
 
 def plan(tier, seed):
-    return e1.plan(tier, seed) + [{'mode': 'seedcmp', 'i': i, 'n': NCMP} for i in range(NCMP)]
+    return e1.plan(tier, seed) + [{'mode': 'seedcmp', 'i': i, 'n': NCMP} for i in range(NCMP)] + [{'mode': 'docs_stream'}]
 
 
 def _name(x):
@@ -339,10 +339,19 @@ def seed_texts(cell):
 def run_shard(shard, tier):
     if shard.get('mode') == 'seedcmp':
         return run_seedcmp(shard, tier)
+    if shard.get('mode') == 'docs_stream':
+        from mc import docs_stream
+        res = core.new_result()
+        docs_stream.run(core.import_pane(), res, want_text=True)
+        return res
     return e1.run_shard(shard, tier, judge, value_fn=values_c08, expr_fn=grammar.expressions_ext)
 
 
 def replay(cell):
+    if cell.get('docs_stream'):
+        from mc import docs_stream
+        out = docs_stream.replay(core.import_pane(), want_text=True)
+        return [v for v in out if v['cell'].get('docs') == cell.get('docs')] or out
     if cell.get('mode') == 'seedcmp':
         a, b = seed_texts(cell)
         if a != b:
